@@ -1,6 +1,6 @@
 """Contracts for the metadata source's path scheme and forget operations (property C05: "every storage backend behaves like one dictionary of
 memoized calls"; anchored: DataSourceMetadataSource path scheme and forget by directory / file prefix): _get_function_path, _get_path,
-_get_metadata_path, _get_metadata_key, forget_call, forget_function, forget_everything, put_memento, write_metadata, list_mementos, list_functions.
+_get_metadata_path, _get_metadata_key, forget_call, forget_function, forget_everything, put_memento, write_metadata, list_mementos, list_functions, all_mementos_exist.
 
 The layout of the metadata area (documented store layout, shared with other implementations):
     m/<qualified name>/<argument hash>.memento.json                       the memento of a call
@@ -133,6 +133,24 @@ def load(R):
                         "len(ghost('deleted')) == NDEL()"],
                raises={"Exception+": ["len(ghost('deleted')) == NDEL()"]},
                modifies=["ghost:listed", "ghost:last_listing"])
+
+    # all_mementos_exist ("reads return the last value written ... is-memoized"): true exactly when the memento file of EVERY requested call exists -- each call asked about
+    # under its own memento path, in one bulk question to the data source
+    R.uf("key_exists", [TObj(), TStr], TBool)
+
+    def all_exist(ex, recv, args, kwargs):
+        keys = ex.cont(args[0])
+        if not isinstance(keys, ListV):
+            raise Unsupported("all_exist_nonversioned of %r" % (keys,))
+        res = ex.sym(TList(TBool), "exist!%d" % ex._bump())
+        r = ex.cont(res)
+        ex.assume(r.n == keys.n)
+        src = recv.t
+        ex.add_universal([TInt], lambda j: z3.Implies(z3.And(0 <= j, j < keys.n), r.arr[j] == R.ufs["key_exists"][0](src, DKey.get(keys.arr[j], "key"))), "all-exist-answers")
+        return res
+    R.obj_method_hooks["all_exist_nonversioned"] = all_exist
+    R.contract(D + "all_mementos_exist", prop="C05", types={"self": DMS, "fns": TList(FWH)}, returns=TBool,
+               ensures=["result == forall(int, lambda j: implies(0 <= j and j < len(fns), key_exists(self.data_source, CPATH(fns[j].fn_reference, fns[j].arg_hash) + '.memento.json')))"])
 
     # ---------------------------------------------------------------- writes: put_memento, write_metadata
     # From the property (one dictionary of calls): the memento of a call is written under THAT call's memento path; a metadata entry under the call's metadata
